@@ -1026,3 +1026,188 @@ Section PLaws.
     Qed.
   End RpSolve.
 End PLaws.
+
+(* ====================================================================== PART 3 : weak isomorphism *)
+Lemma rp_init_constraints T univ null union inter single f h :
+  init_constraints T univ null union inter single (reprev f h) = init_constraints T univ null union inter single f.
+Proof.
+  unfold init_constraints. change (fn_blocks (reprev f h)) with (map (setp h) (fn_blocks f)).
+  rewrite (iso_forallb_map (setp h) (fun b => match next_global f b with Some _ => true | None => false end)).
+  2:{ intros b _. rewrite (rp_next_global f h b). reflexivity. }
+  rewrite map_map. reflexivity.
+Qed.
+
+(* the in-order copy of f inside f' : the blocks of f renamed, everything else from f' *)
+Definition norm_prev (r g : nat -> nat) (f f' : func) : func :=
+  mkFunc (fn_prog f') (map (ren_block r g) (fn_blocks f)) (fn_entry f') (fn_main f') (fn_subs f') (fn_all_subs f')
+         (fn_intcs f').
+(* the predecessor list f' gives to the block with the id of b *)
+Definition prev_of_id (f' : func) (b : block) : list nat :=
+  match fblock f' (b_idx b) with Some b' => b_prev b' | None => [] end.
+
+(* f' is weakly isomorphic to f: all of [fiso] with the block list of f' replaced by: the blocks of f' are, in order,
+   the blocks of f with id r idx, positions map g ins, successors map r next (IN ORDER) and a predecessor list that has
+   the same ELEMENTS as map r prev and the same first callsub predecessor *)
+Record fiso_w (r g : nat -> nat) (f f' : func) : Prop := mkFisoW {
+  isow_iso : fiso r g f (norm_prev r g f f');
+  isow_blocks : fn_blocks f' = map (setp (prev_of_id f')) (fn_blocks (norm_prev r g f f'));
+  isow_set : forall b, In b (fn_blocks (norm_prev r g f f')) ->
+               forall x, In x (prev_of_id f' b) <-> In x (b_prev b);
+  isow_csb : forall b, In b (fn_blocks (norm_prev r g f f')) ->
+               find (cs_test (norm_prev r g f f')) (prev_of_id f' b) = find (cs_test (norm_prev r g f f')) (b_prev b) }.
+
+Lemma fiso_w_reprev r g f f' : fiso_w r g f f' -> f' = reprev (norm_prev r g f f') (prev_of_id f').
+Proof.
+  intros W. pose proof (isow_blocks r g f f' W) as Hb. unfold reprev.
+  destruct f' as [pr bl en mn sb al ic]. cbn [fn_blocks fn_prog fn_entry fn_main fn_subs fn_all_subs fn_intcs norm_prev] in *.
+  rewrite <- Hb. reflexivity.
+Qed.
+
+Lemma fiso_fiso_w r g f f' : NoDup (map b_idx (fn_blocks f')) -> fiso r g f f' -> fiso_w r g f f'.
+Proof.
+  intros Hnd ISO.
+  assert (En : norm_prev r g f f' = f').
+  { unfold norm_prev. rewrite <- (iso_blocks r g f f' ISO). destruct f'; reflexivity. }
+  assert (Hp : forall b, In b (fn_blocks f') -> prev_of_id f' b = b_prev b).
+  { intros b Hb. unfold prev_of_id, fblock.
+    assert (H : forall l, NoDup (map b_idx l) -> In b l -> find (fun b0 => Nat.eqb (b_idx b0) (b_idx b)) l = Some b).
+    { induction l as [|a l IH]; intros Hn Hi; [destruct Hi|]. cbn [find].
+      destruct Hi as [->|Hi]; [rewrite Nat.eqb_refl; reflexivity|].
+      cbn [map] in Hn. inversion Hn as [|x xs Hx Hn']; subst.
+      destruct (Nat.eqb (b_idx a) (b_idx b)) eqn:E; [|exact (IH Hn' Hi)].
+      apply Nat.eqb_eq in E. exfalso. apply Hx. rewrite E. apply in_map. exact Hi. }
+    rewrite (H _ Hnd Hb). reflexivity. }
+  constructor; rewrite En.
+  - exact ISO.
+  - rewrite <- (map_id (fn_blocks f')) at 1. apply map_ext_in. intros b Hb. unfold setp. rewrite (Hp b Hb).
+    destruct b; reflexivity.
+  - intros b Hb x. rewrite (Hp b Hb). tauto.
+  - intros b Hb. rewrite (Hp b Hb). reflexivity.
+Qed.
+
+(* ---------------------------------------------------------------------- the boolean *)
+Definition seteqb (l1 l2 : list nat) : bool :=
+  forallb (fun x => nat_mem x l2) l1 && forallb (fun x => nat_mem x l1) l2.
+
+Lemma seteqb_spec l1 l2 : seteqb l1 l2 = true -> forall x, In x l1 <-> In x l2.
+Proof.
+  unfold seteqb. rewrite andb_true_iff, !forallb_forall. intros [H1 H2] x.
+  split; intros Hx; apply nat_mem_In; auto.
+Qed.
+
+Definition iso_w_check (r g : nat -> nat) (f f' : func) : bool :=
+  let f'' := norm_prev r g f f' in
+  let h := prev_of_id f' in
+  iso_check r g f f'' &&
+  dec_b (list_eq_dec block_eq_dec_iso (fn_blocks f') (map (setp h) (fn_blocks f''))) &&
+  forallb (fun b => seteqb (h b) (b_prev b) &&
+                    dec_b (opt_eq_dec_iso Nat.eq_dec (find (cs_test f'') (h b)) (find (cs_test f'') (b_prev b))))
+          (fn_blocks f'').
+
+Theorem iso_w_check_sound r g f f' :
+  (forall x y, r x = r y -> x = y) -> (forall x y, g x = g y -> x = y) ->
+  iso_w_check r g f f' = true -> fiso_w r g f f'.
+Proof.
+  intros Hr Hg H. unfold iso_w_check in H. cbv zeta in H.
+  apply andb_true_iff in H. destruct H as [H C3]. apply andb_true_iff in H. destruct H as [C1 C2].
+  rewrite forallb_forall in C3.
+  constructor.
+  - apply iso_check_sound; assumption.
+  - exact (dec_b_true _ C2).
+  - intros b Hb. specialize (C3 b Hb). apply andb_true_iff in C3. apply seteqb_spec. apply C3.
+  - intros b Hb. specialize (C3 b Hb). apply andb_true_iff in C3. exact (dec_b_true _ (proj2 C3)).
+Qed.
+
+(* ---------------------------------------------------------------------- search and detectors: exactly the renamed
+   paths, in the same order, for every fuel (exceptions included), as soon as the validation verdicts agree *)
+Theorem wiso_run_detector r g f f' res res' fuel name checks :
+  fiso_w r g f f' ->
+  (forall n, validated_in_block res' checks None n = validated_in_block (ren_result r res) checks None n) ->
+  run_detector f' res' fuel name checks = omap (ren_paths r) (run_detector f res fuel name checks).
+Proof.
+  intros W Hv. rewrite (fiso_w_reprev r g f f' W) at 1.
+  rewrite (rp_run_detector (norm_prev r g f f') (prev_of_id f') (ren_result r res) res' fuel name checks Hv).
+  exact (iso_run_detector_res r g f (norm_prev r g f f') (isow_iso r g f f' W) res fuel name checks).
+Qed.
+
+(* block-level constraints are the same lists up to the renaming *)
+Theorem wiso_init_constraints r g f f' T univ null union inter single :
+  fiso_w r g f f' ->
+  (forall op pos args, single op (g pos) (map (shift_sval g) args) = single op pos args) ->
+  init_constraints T univ null union inter single f' =
+  option_map (ren_st r) (init_constraints T univ null union inter single f).
+Proof.
+  intros W Hs. rewrite (fiso_w_reprev r g f f' W) at 1. rewrite rp_init_constraints.
+  exact (iso_init_constraints r g T univ null union inter single Hs f (norm_prev r g f f') (isow_iso r g f f' W)).
+Qed.
+
+(* ---------------------------------------------------------------------- the solver *)
+Section WeakSolve.
+  Variable T : Type.
+  Variable t_eqb : T -> T -> bool.
+  Variable univ null : T.
+  Variable union inter : T -> T -> T.
+  Variable single : instr -> nat -> list sval -> T * T.
+  Variable P : T -> Prop.
+  Variable leq : T -> T -> Prop.
+  Hypothesis P_univ : P univ.
+  Hypothesis P_null : P null.
+  Hypothesis P_union : forall a b, P a -> P b -> P (union a b).
+  Hypothesis P_inter : forall a b, P a -> P b -> P (inter a b).
+  Hypothesis P_single : forall op pos args, P (fst (single op pos args)) /\ P (snd (single op pos args)).
+  Hypothesis teq_refl : forall a, t_eqb a a = true.
+  Hypothesis leq_refl : forall a, leq a a.
+  Hypothesis leq_trans : forall a b c, leq a b -> leq b c -> leq a c.
+  Hypothesis teq_leq : forall a b, P a -> P b -> (t_eqb a b = true <-> leq a b /\ leq b a).
+  Hypothesis union_ub_l : forall a b, P a -> P b -> leq a (union a b).
+  Hypothesis union_ub_r : forall a b, P a -> P b -> leq b (union a b).
+  Hypothesis union_lub : forall a b c, P a -> P b -> P c -> leq a c -> leq b c -> leq (union a b) c.
+  Hypothesis inter_mono : forall a a' b b', P a -> P a' -> P b -> P b' ->
+                          leq a a' -> leq b b' -> leq (inter a b) (inter a' b').
+  Hypothesis null_least : forall a, P a -> leq null a.
+
+  Variables r g : nat -> nat.
+  Hypothesis single_pos : forall op pos args, single op (g pos) (map (shift_sval g) args) = single op pos args.
+  Variables f f' : func.
+  Hypothesis W : fiso_w r g f f'.
+
+  Notation wpeq := (SolverLemmas.peq T t_eqb).
+
+  Lemma lookup_ren_inv (st : list (nat * T)) b v :
+    Analysis.lookup T (ren_st r st) b = Some v -> exists k, b = r k /\ Analysis.lookup T st k = Some v.
+  Proof.
+    pose proof (iso_r_inj r g f _ (isow_iso r g f f' W)) as Hinj.
+    unfold ren_st. induction st as [|[k w] st IH]; intros Hl; [discriminate|].
+    cbn [map Analysis.lookup fst snd] in Hl. destruct (Nat.eqb (r k) b) eqn:E.
+    - apply Nat.eqb_eq in E. inversion Hl; subst. exists k. split; [reflexivity|].
+      cbn [Analysis.lookup]. rewrite Nat.eqb_refl. reflexivity.
+    - destruct (IH Hl) as [k' [-> Hk']]. exists k'. split; [reflexivity|].
+      cbn [Analysis.lookup]. destruct (Nat.eqb k k') eqn:E'; [|exact Hk'].
+      apply Nat.eqb_eq in E'. subst k'. rewrite Nat.eqb_refl in E. discriminate.
+  Qed.
+
+  Lemma okst_ren (st : list (nat * T)) : okst T P st -> okst T P (ren_st r st).
+  Proof. intros H b v Hl. destruct (lookup_ren_inv st b v Hl) as [k [_ Hk]]. exact (H k v Hk). Qed.
+
+  (* Domains.solve on weakly isomorphic functions: if both runs terminate, the result of f' has the keys of the
+     renamed result of f and, key by key, values equal up to the domain's equality (= the same sets) *)
+  Theorem wiso_solve bc bc' fu fu' lo lo' :
+    graph_wf f' = true ->
+    okst T P bc -> okst T P bc' -> wpeq (ren_st r bc) bc' ->
+    solve T t_eqb univ null union inter single f fu bc = Done lo ->
+    solve T t_eqb univ null union inter single f' fu' bc' = Done lo' ->
+    wpeq (ren_st r lo) lo' /\ okst T P lo'.
+  Proof.
+    intros Hwf O1 O2 Hbc S1 S2.
+    destruct (graph_wf_sound f' Hwf) as [Hcp [Hcr [Hcn [Hcc [Hfw [Hbw _]]]]]].
+    pose proof (iso_solve r g T t_eqb univ null union inter single single_pos f _ (isow_iso r g f f' W) fu bc) as E.
+    rewrite S1 in E. cbn [omap] in E.
+    revert Hcp Hcr Hcn Hcc Hfw Hbw S2. rewrite (fiso_w_reprev r g f f' W). intros Hcp Hcr Hcn Hcc Hfw Hbw S2.
+    destruct (rp_solve T t_eqb univ null union inter single P leq P_univ P_null P_union P_inter P_single teq_refl
+                leq_refl leq_trans teq_leq union_ub_l union_ub_r union_lub inter_mono null_least
+                (norm_prev r g f f') (prev_of_id f') (isow_set r g f f' W) (isow_csb r g f f' W)
+                (ren_st r bc) bc' fu fu' (ren_st r lo) lo' Hcp Hcr Hcn Hcc Hfw Hbw (okst_ren bc O1) O2 Hbc E S2)
+      as [H1 [_ H3]].
+    split; assumption.
+  Qed.
+End WeakSolve.
